@@ -537,6 +537,11 @@ def run_C16(pid, tier, seed, model_ok=True):
     os.makedirs(work, exist_ok=True)
     pairs = gen_pairs(tier, rnd)
     big = []
+    # incompressible unrelated targets: the compressed patch itself exceeds 1 MiB
+    rbig = lambda n: random.Random(seed + n).randbytes(n)
+    big.append(('unrelbig', rbig(700000), rbig(1600000)))
+    if tier == 'thorough':
+        big.append(('unrelbig2', rbig(3 << 20), rbig((3 << 20) + 12345)))
     if tier == 'thorough':
         for n in (1 << 20, 3 << 20):
             base = bytes(rnd.randrange(256) for _ in range(4096)) * (n // 4096)
